@@ -94,6 +94,7 @@ func checkC04(p *Prog, r *Report) {
 	r.Rule("R4b", "the mutator that consults the writecheck tag restores the flag: with remoteWrite, one writecheck field and the field being that one, the existing value is set into the replacement even if the update carries a value; a non-nil, non-flag field is never overwritten; without remoteWrite a non-nil field is never overwritten")
 	r.Rule("R5", "a flagged item type has exactly one writecheck field, of type *bool")
 	r.Rule("R7", "the inbound write route passes the constant true for remoteWrite (C03-R1)")
+	r.Rule("R9", "failure is never lost: on every path through the generic update engine and through every function that forwards its outcome, if a stage that ran reported failure then the function itself reports failure")
 	r.Rule("R8", "no reflective mutator call on an existing item and no replacement in the merge is reachable with writeAllowed(item) false on a remote write")
 
 	// R1
@@ -312,6 +313,7 @@ func checkC04(p *Prog, r *Report) {
 	}
 	r.Floor("R4", "reflective mutators applied by the engine", len(seenMut), 2)
 	c04FlagRetention(p, o, r)
+	engineFailureRule(p, r, "R9")
 
 	// R5
 	t := BuildTables(p)
@@ -506,4 +508,33 @@ func c04FlagRetention(p *Prog, o *Ownership, r *Report) {
 		r.Check("R4b", base+"|fills-missing", fill, p.InstrPos(setCall), "a field the update does not mention is filled from the existing item")
 	}
 	r.Floor("R4b", "tag-aware mutators", n, 1)
+}
+
+// engineFailureRule applies failureMonotone to the exported generic engine and
+// to the functions of the function-data store that consume an Updater result.
+func engineFailureRule(p *Prog, r *Report, rule string) {
+	n := 0
+	seen := map[*ssa.Function]bool{}
+	for _, fn := range p.RepoFns("model") {
+		if originName(fn) != "UpdateList" || fn.Signature.Recv() != nil || seen[originOf(fn)] {
+			continue
+		}
+		seen[originOf(fn)] = true
+		nStages, nPaths, bad, und := failureMonotone(p, fn)
+		if nStages == 0 {
+			r.Undecided(rule, "model.UpdateList|stages", p.Pos(fn.Pos()), "no stage calls returning (data, ok) found in the engine")
+			continue
+		}
+		n++
+		for i, m := range bad {
+			r.Fail(rule, fmt.Sprintf("model.UpdateList|lost-failure#%d", i+1), p.Pos(fn.Pos()), m)
+		}
+		for i, m := range und {
+			r.Undecided(rule, fmt.Sprintf("model.UpdateList|undetermined#%d", i+1), p.Pos(fn.Pos()), m)
+		}
+		if len(bad)+len(und) == 0 {
+			r.Pass(rule, "model.UpdateList", p.Pos(fn.Pos()), fmt.Sprintf("%d stages, %d paths under all stage outcomes: every path with a failed stage returns false", nStages, nPaths))
+		}
+	}
+	r.Floor(rule, "engine bodies examined", n, 1)
 }
